@@ -458,6 +458,15 @@ impl TransactionCoordinator {
         Ok(())
     }
 
+    /// Whether the transaction is still running: known to the coordinator and neither
+    /// committed nor aborted (VACUUM aborts every active transaction and forgets old ones).
+    pub fn is_active(&self, txid: TransactionId) -> bool {
+        self.transactions
+            .read()
+            .get(&txid)
+            .is_some_and(|entry| entry.is_active())
+    }
+
     /// Record a read operation for a transaction
     pub fn record_read(&self, txid: TransactionId, logical_id: LogicalId) -> TransactionResult<()> {
         let mut txs = self.transactions.write();
@@ -692,6 +701,14 @@ impl TransactionHandle {
 
     pub fn can_commit(&self) -> bool {
         self.commit_handle.is_some()
+    }
+
+    /// False once the coordinator has aborted (or forgotten) the transaction behind this handle.
+    /// A handle without a commit handle (a clone, or one that already finished) cannot tell and says true.
+    pub fn is_active(&self) -> bool {
+        self.commit_handle
+            .as_ref()
+            .is_none_or(|handle| handle.coordinator.is_active(self.id))
     }
 
     pub fn commit(&mut self) -> TransactionResult<()> {
